@@ -419,6 +419,34 @@ impl<'a> Reader<&'a [u8]> {
     }
 //@end
 
+//@extract slice_reader::Reader::read_text | src/reader/slice_reader.rs :: impl<'a> Reader<&'a [u8]> :: fn read_text | serves=C12 n11=2
+ pub(crate) fn read_text(&mut self, end: QName) -> (r: Result<Cow<'a, str>>)
+        requires
+            old(self).inv(),
+            // called after a Start event: the reader stands right behind the start tag
+            old(self).state.state is InsideText,
+            old(self).state.offset + old(self).reader.remaining().len() <= u64::MAX,
+            old(self).reader.remaining().len() <= usize::MAX,
+        ensures
+            final(self).inv(), final(self).state.config == old(self).state.config,
+            skip_domain(old(self).state, end.0@) && r is Ok ==> final(self).state.stack() == old(self).state.stack().drop_last(),
+            // C12: the text returned is exactly the input between the start tag and the end tag that was skipped to:
+            // the decoding of the first `n` bytes that were left, n = length of the span reported by read_to_end
+            r matches Ok(t) ==> exists|n: int| 0 <= n <= old(self).reader.remaining().len()
+                && n <= final(self).bufpos() - old(self).bufpos()
+                && #[trigger] spec_decode(old(self).state.decoder_spec(), old(self).reader.remaining().subrange(0, n)) == Ok::<Cow<'a, str>, EncodingError>(t),
+ {
+        // self.reader will be changed, so store original reference
+        let buffer = self.reader;
+        let span = self.read_to_end(end)?;
+
+        let len = span.end - span.start;
+        // SAFETY: `span` can only contain indexes up to usize::MAX because it
+        // was created from offsets from a single &[u8] slice
+        Ok(match self.decoder().decode(&buffer[0..len as usize]) { Ok(v__) => v__, Err(e__) => return Err(From::from(e__)) })
+    }
+//@end
+
 //@extract slice_reader::Reader::read_to_end | src/reader/slice_reader.rs :: impl<'a> Reader<&'a [u8]> :: fn read_to_end | serves=C03,C05,C12 expand=read_to_end macro_files=src/reader/mod.rs
  #[verifier::loop_isolation(false)]
  #[verifier::allow_complex_invariants]
@@ -435,7 +463,9 @@ impl<'a> Reader<&'a [u8]> {
             final(self).bufpos() >= old(self).bufpos(),
             match r {
                 // the span starts where the reader stood and ends before the end tag that was read last
-                Ok(span) => span.start == old(self).bufpos() && span.start <= span.end <= final(self).bufpos(),
+                Ok(span) => span.start == old(self).bufpos() && span.start <= span.end <= final(self).bufpos()
+                    // the span lies inside the input that was left
+                    && (!(old(self).state.state is Done) ==> span.end <= old(self).state.offset + old(self).reader.remaining().len()),
                 Err(_) => true,
             },
             // C12 (matching): with end names checked, skipping the innermost open element consumes input exactly up
@@ -445,6 +475,8 @@ impl<'a> Reader<&'a [u8]> {
         let ghost cfg0 = self.state.config;
         let ghost pos0 = self.bufpos();
         let ghost s0 = self.state.stack();
+        let ghost lim0 = self.state.offset + self.reader.remaining().len();
+        let ghost done0 = self.state.state is Done;
         let ghost good = skip_domain(self.state, end.0@);
         let ghost mut t: Seq<Seq<u8>> = Seq::empty();
         proof { assert(s0 + t =~= s0); }
@@ -474,6 +506,7 @@ impl<'a> Reader<&'a [u8]> {
                 !(self.state.state is Done) ==> self.state.offset + self.reader.remaining().len() <= u64::MAX,
                 self.reader.remaining().len() <= usize::MAX,
                 depth >= 0,
+                !done0 ==> self.state.offset + self.reader.remaining().len() <= lim0,
                 good ==> self.state.stack() == s0 + t && depth as int == count_name(t, end.0@),
                 self.state.config == (Config { trim_text_start: false, ..cfg0 }),
                 trim == cfg0.trim_text_start,
@@ -482,6 +515,7 @@ impl<'a> Reader<&'a [u8]> {
                 self.inv(), self.reader.faults() >= old(self).reader.faults(),
                 self.state.config == cfg0,
                 __lv1.start == pos0 && __lv1.start <= __lv1.end <= self.bufpos(),
+                !done0 ==> __lv1.end <= lim0,
                 good ==> self.state.stack() == s0.drop_last(),
             decreases measure(self.state, self.reader.remaining())
         {
@@ -601,7 +635,9 @@ impl<R: BufRead> Reader<R> {
             final(self).bufpos() >= old(self).bufpos(),
             match r {
                 // the span starts where the reader stood and ends before the end tag that was read last
-                Ok(span) => span.start == old(self).bufpos() && span.start <= span.end <= final(self).bufpos(),
+                Ok(span) => span.start == old(self).bufpos() && span.start <= span.end <= final(self).bufpos()
+                    // the span lies inside the input that was left
+                    && (!(old(self).state.state is Done) ==> span.end <= old(self).state.offset + old(self).reader.remaining().len()),
                 Err(_) => true,
             },
             // C12 (matching): with end names checked, skipping the innermost open element consumes input exactly up
@@ -611,6 +647,8 @@ impl<R: BufRead> Reader<R> {
         let ghost cfg0 = self.state.config;
         let ghost pos0 = self.bufpos();
         let ghost s0 = self.state.stack();
+        let ghost lim0 = self.state.offset + self.reader.remaining().len();
+        let ghost done0 = self.state.state is Done;
         let ghost good = skip_domain(self.state, end.0@);
         let ghost mut t: Seq<Seq<u8>> = Seq::empty();
         proof { assert(s0 + t =~= s0); }
@@ -640,6 +678,7 @@ impl<R: BufRead> Reader<R> {
                 !(self.state.state is Done) ==> self.state.offset + self.reader.remaining().len() <= u64::MAX,
                 self.reader.remaining().len() <= usize::MAX,
                 depth >= 0,
+                !done0 ==> self.state.offset + self.reader.remaining().len() <= lim0,
                 good ==> self.state.stack() == s0 + t && depth as int == count_name(t, end.0@),
                 self.state.config == (Config { trim_text_start: false, ..cfg0 }),
                 trim == cfg0.trim_text_start,
@@ -648,6 +687,7 @@ impl<R: BufRead> Reader<R> {
                 self.inv(), self.reader.faults() >= old(self).reader.faults(),
                 self.state.config == cfg0,
                 __lv1.start == pos0 && __lv1.start <= __lv1.end <= self.bufpos(),
+                !done0 ==> __lv1.end <= lim0,
                 good ==> self.state.stack() == s0.drop_last(),
             decreases measure(self.state, self.reader.remaining())
         {
